@@ -7,6 +7,7 @@ import (
 	"net"
 	"time"
 
+	"github.com/IrineSistiana/connpool"
 	"github.com/IrineSistiana/mosproxy/internal/dnsmsg"
 )
 
@@ -90,3 +91,31 @@ func VerifFireIdleTimer(x any) { x.(*reusableConn).closeIfIdle() }
 
 // VerifRcConn returns the net.Conn of a reusable connection.
 func VerifRcConn(x any) net.Conn { return x.(*reusableConn).c }
+
+// VerifPipePool returns the connection pool of a pipelined transport.
+func VerifPipePool(t *PipelineTransport) *connpool.Pool { return t.pool }
+
+// VerifPcState reads a pipelined connection's fields under its lock.
+func VerifPcState(x any) (closed bool, nextQid, reserved int, qids []int) {
+	pc := x.(*pipelineConn)
+	pc.m.RLock()
+	defer pc.m.RUnlock()
+	for q := range pc.queue {
+		qids = append(qids, int(q))
+	}
+	return pc.closed, pc.nextQid, pc.reserved, qids
+}
+
+// VerifPcSetNextQid moves a fresh connection's ID counter (to bring the end of the ID space within reach).
+func VerifPcSetNextQid(x any, n int) {
+	pc := x.(*pipelineConn)
+	pc.m.Lock()
+	pc.nextQid = n
+	pc.m.Unlock()
+}
+
+// VerifPcNetConn returns the net.Conn of a pipelined connection.
+func VerifPcNetConn(x any) net.Conn { return x.(*pipelineConn).c }
+
+// VerifPcTransport returns the transport a pipelined connection belongs to.
+func VerifPcTransport(x any) *PipelineTransport { return x.(*pipelineConn).t }
